@@ -201,8 +201,10 @@ def rule_notify(ctx):
     tc = m.classes['TempoClock']
     for fq_, f in (('tempo.setter', tc.setters['tempo']), ('beats.setter', tc.setters['beats']), ('etempo', tc.methods['etempo']),
                    ('clear', tc.methods['clear'])):
-        src = full(f.node)
-        ok = 'with self._sched_cond:' in src and ('self._sched_cond.notify()' in src or 'self._sched_cond.notify_all()' in src)
+        ok = False
+        for g in U.self_closure(ctx.repo, tc, f).values():      # the function itself or a helper it delegates to
+            src = full(g.node)
+            ok = ok or ('with self._sched_cond:' in src and ('self._sched_cond.notify()' in src or 'self._sched_cond.notify_all()' in src))
         ctx.ob('C08.notify', f'{f.fq}:notify', ok, 'changing the time map or clearing must wake the clock thread to recompute its deadline', f.node, m)
     sc = m.classes['SystemClock']
     src = full(sc.methods['clear'].node)
@@ -440,8 +442,8 @@ MUTANTS = [
     dict(rule='C08.notify', name='notify deleted in _sched_add', file='sc3/base/clock.py',
          old="        cls._task_queue.add(secs, task)\n        if cls._task_queue.peek()[0] != prev_time:\n            cls._sched_cond.notify_all()", new="        cls._task_queue.add(secs, task)"),
     dict(rule='C08.notify', name='tempo setter does not wake the thread', file='sc3/base/clock.py',
-         old="        mdl.NotificationCenter.notify(self, 'tempo')\n        if self.mode == _libsc3.main.NRT_MODE:\n            return\n        else:\n            with self._sched_cond:\n                self._sched_cond.notify()  # NOTE: is notify_one in C++.\n\n    def etempo",
-         new="        mdl.NotificationCenter.notify(self, 'tempo')\n\n    def etempo"),
+         old="        mdl.NotificationCenter.notify(self, 'tempo')\n        if self.mode == _libsc3.main.NRT_MODE:\n            _libsc3.main._clock_scheduler.rekey(self)\n        else:\n            with self._sched_cond:\n                self._sched_cond.notify()  # NOTE: is notify_one in C++.\n\n    def etempo",
+         new="        mdl.NotificationCenter.notify(self, 'tempo')\n        if self.mode == _libsc3.main.NRT_MODE:\n            _libsc3.main._clock_scheduler.rekey(self)\n\n    def etempo"),
     dict(rule='C08.notify', name='sched adds directly to the queue', file='sc3/base/clock.py',
          old="                if seconds == float('inf'):\n                    return\n                cls._sched_add(seconds, item)", new="                if seconds == float('inf'):\n                    return\n                cls._task_queue.add(seconds, item)"),
     dict(rule='C08.pred', name='(fix reverted) AppClock waits without the pending flag', file='sc3/base/clock.py',
